@@ -220,6 +220,8 @@ E2E_CFG = {
     45: dict(init=(2.0, 4), mugrid=((8.0, 5),)),  # crosses the bottom threshold: two segments + matching
     # the same with the bottom matching scale at 1.5 m_b: the a_s matching is non-trivial already at NLO, so the
     # coupling steps of the QED and QCD operators only agree if both resolve the boundary to the same patch
+    # across the top threshold (the only place where all QED-basis non-singlet combinations are active in the matching)
+    56: dict(init=(100.0, 5), mugrid=((300.0, 6),)),
     451: dict(init=(2.0, 4), mugrid=((10.0, 5),), ratios=(1.0, 1.5, 1.0)),
 }
 
@@ -238,9 +240,9 @@ def _solve(arg):
 def _e2e(ck):
     AEMS = [1e-4, 1e-6, 1e-8]
     if ck.quick:
-        ladders = [((2, 4), [10, 40]), ((2, 451), [10, 40])]
+        ladders = [((2, 4), [10, 40]), ((2, 451), [10, 40]), ((1, 56), [10, 40])]
     else:
-        ladders = [((2, 3), [10, 40, 160]), ((2, 4), [10, 40, 160]), ((2, 5), [10, 40, 160]), ((2, 45), [10, 40, 160]), ((2, 451), [10, 40, 160]), ((3, 45), [10, 40]), ((3, 4), [10, 40])]
+        ladders = [((2, 3), [10, 40, 160]), ((2, 4), [10, 40, 160]), ((2, 5), [10, 40, 160]), ((2, 45), [10, 40, 160]), ((2, 451), [10, 40, 160]), ((3, 45), [10, 40]), ((3, 4), [10, 40]), ((1, 56), [10, 40, 160]), ((2, 56), [10, 40])]
     items = []
     for (n, nfk), Ks in ladders:
         for K in Ks:
